@@ -91,16 +91,27 @@ Print Assumptions refused_or_blocked_taskrunner.
 
 (* ---- Pool ---- *)
 
-(* pool_exclusive, counting part: created = idle + held <= limit at every step; expired idle
-   resources popped by Get are uncounted ([pdrain] decrements [created] per destroyed one).
-   NOT proved in Coq (checked on every observed history by Check.prop_ok / pl_scan and by the
-   runtime monitor): that the identities are disjoint, i.e. no resource id is in two
-   threads' [pheld] lists or both idle and held. *)
-Theorem pool_counts_partial : forall n ma scripts sched,
+(* pool_exclusive.  Counting: created = idle + held <= limit at every step; expired idle
+   resources popped by Get are uncounted ([pdrain] decrements [created] per destroyed one). *)
+Theorem pool_counts : forall n ma scripts sched,
   let s := pexec n ma scripts sched in
   pcreated s = length (pidle s) + pheldcount s /\ pcreated s <= n.
 Proof. exact pool_counts_l. Qed.
-Print Assumptions pool_counts_partial.
+Print Assumptions pool_counts.
+
+(* Identities: every resource id is held by at most one user and never both idle and held
+   ([pholders x] sums the occurrences of x over all threads' held lists); a destroyed
+   resource is neither idle nor held ever after; ids not yet created are nowhere.
+   (Users Put only what they hold: the script op PPut puts back the most recent resource.)
+   Not proved in Coq: "Get never returns an expired resource" — checked on every observed
+   history by Check.pl_scan only. *)
+Theorem pool_exclusive : forall n ma scripts sched x,
+  let s := pexec n ma scripts sched in
+  pholders x s + pidle_count x s <= 1 /\
+  (In x (pdestroyed s) -> pholders x s = 0 /\ pidle_count x s = 0) /\
+  (pnext s <= x -> pholders x s = 0 /\ pidle_count x s = 0).
+Proof. exact pool_exclusive_l. Qed.
+Print Assumptions pool_exclusive.
 
 (* refused_or_blocked: Get at the limit with nothing idle waits (and creates nothing) *)
 Theorem blocked_pool : forall s t th,
